@@ -363,6 +363,61 @@ fn run_stream(alpha: &[Elt], seq: &[usize], bytewise: bool, cuts: Option<&[usize
     Ok(Outcome { viol, chunks, responses: resps.len() as u64 })
 }
 
+/// `n` requests and a final quit in one write: loud noops (every one answered, in order, then quit's
+/// answer and the end of the stream), or quiet sets of one key (all silent) followed by a get that
+/// must see the last of them.
+fn long_pipeline(n: usize, quiet: bool) -> Result<Option<String>, String> {
+    let w = net::NetWorld::new(NetCfg::default())?;
+    let mut c = w.connect()?;
+    let mut bytes = Vec::with_capacity(n * 40);
+    for i in 0..n {
+        if quiet {
+            bytes.extend(Req::store(op::SETQ, b"lp", format!("{}", i).as_bytes(), 3, 0, 0).opaque(i as u32).bytes());
+        } else {
+            bytes.extend(Req::bare(op::NOOP).opaque(i as u32).bytes());
+        }
+    }
+    if quiet {
+        bytes.extend(Req::get(op::GET, b"lp").opaque(0x7fff_0001).bytes());
+    }
+    bytes.extend(Req::bare(op::QUIT).opaque(0x7fff_0002).bytes());
+    let what = |s: String| Ok(Some(format!("{} pipelined {} then {}quit in one write: {}", n, if quiet { "setq" } else { "noop" }, if quiet { "get, " } else { "" }, s)));
+    if let Err(e) = c.send(&w, &bytes) {
+        return what(format!("the connection was lost while sending ({})", e));
+    }
+    for _ in 0..200_000 {
+        w.settle();
+        let before = c.got.len();
+        c.pump();
+        if c.eof || c.got.len() == before {
+            break;
+        }
+    }
+    w.settle();
+    c.pump();
+    let (resps, residue) = wire::split_responses(&c.got);
+    let want = if quiet { 2 } else { n + 1 };
+    if residue != 0 || resps.len() != want {
+        return what(format!("{} whole responses arrived ({} stray bytes), expected {}; connection {}", resps.len(), residue, want, if c.eof { "closed" } else { "still open" }));
+    }
+    if quiet {
+        let last = format!("{}", n - 1);
+        if resps[0].opcode != op::GET || resps[0].status != st::OK || resps[0].value() != last.as_bytes() {
+            return what(format!("the get answered {} but the last quiet set stored {:?}", resps[0].short(), last));
+        }
+    } else if let Some(i) = (0..n).find(|i| resps[*i].opcode != op::NOOP || resps[*i].opaque != *i as u32 || resps[*i].status != st::OK) {
+        return what(format!("response #{} is {}", i, resps[i].short()));
+    }
+    let q = &resps[want - 1];
+    if q.opcode != op::QUIT || q.status != st::OK || q.opaque != 0x7fff_0002 {
+        return what(format!("the last response is {}, expected quit's", q.short()));
+    }
+    if !c.eof {
+        return what("the connection was not closed after quit".into());
+    }
+    Ok(None)
+}
+
 type Content = Vec<(Vec<u8>, Vec<u8>, u32, u32)>;
 
 fn content(d: &[crate::sut::DumpItem]) -> Content {
@@ -395,15 +450,27 @@ fn run_reset(alpha: &[Elt], seq: &[usize], allowed: &[&Content]) -> Result<Outco
     let _ = c.step(&w, &Req::store(op::SET, b"k", b"5", 1, 0, 0).bytes());
     c.close(&w);
     let mut c = w.connect()?;
-    c.step(&w, &Req::bare(op::NOOP).opaque(1).bytes())?;
-    if wire::split_responses(&c.got).0.len() != 1 {
-        return Err("reset scenario: the connection was not established".into());
-    }
     let mut bytes = vec![];
     for (i, e) in seq.iter().enumerate() {
         bytes.extend(alpha[*e].req(0x5000 + i as u32 * 0x11).bytes());
     }
-    c.send(&w, &bytes)?;
+    // a fresh connection to a server that has seen one orderly connection: a noop is answered and
+    // the connection takes the stream - anything else is state carried over between connections
+    let established = c.step(&w, &Req::bare(op::NOOP).opaque(1).bytes()).is_ok() && wire::split_responses(&c.got).0.len() == 1;
+    if !established || c.send(&w, &bytes).is_err() {
+        return Ok(Outcome {
+            viol: Some((
+                "next-connection|disturbed".into(),
+                format!(
+                    "a fresh connection (after one connection that sent a set and closed) sent a noop and received {:?}{}",
+                    wire::split_responses(&c.got).0.iter().map(|x| x.short()).collect::<Vec<_>>(),
+                    if established { ", then lost the connection while sending its next requests" } else { "" }
+                ),
+            )),
+            chunks: 1,
+            responses: 0,
+        });
+    }
     c.abort(&w);
     w.settle();
     let have = content(&w.dump());
@@ -568,6 +635,27 @@ pub fn check(tier: Tier, threads: usize) -> CheckOutcome {
             }
         }
     }
+    // pipelines far longer than any per-read or per-wake-up budget, in one write
+    {
+        let sizes: Vec<usize> = if tier == Tier::Quick { vec![130, 300, 1100, 70_000] } else { vec![130, 257, 300, 1100, 5000, 70_000, 140_000] };
+        let mut lp: Vec<(usize, bool)> = vec![];
+        for n in &sizes {
+            lp.push((*n, false));
+            lp.push((*n, true));
+        }
+        let res = par_map(&lp, threads, |_, (n, quiet)| long_pipeline(*n, *quiet));
+        for ((n, quiet), r) in lp.iter().zip(res.iter()) {
+            runs += 1;
+            match r {
+                Err(e) => mach = Some(e.clone()),
+                Ok(None) => {}
+                Ok(Some(what)) => {
+                    let sig = format!("long-pipeline|{}", if *quiet { "setq" } else { "noop" });
+                    found.entry(sig.clone()).or_insert(Violation { signature: sig, what: what.clone(), replay: json!({"engine": "c12-long-pipeline", "requests": n, "quiet": quiet}) });
+                }
+            }
+        }
+    }
     let (bp_n, bp_viol, bp_err) = backpressure(tier);
     if let Some(e) = bp_err {
         mach = Some(e);
@@ -596,7 +684,7 @@ pub fn check(tier: Tier, threads: usize) -> CheckOutcome {
             "alphabet": alpha.iter().map(|e| e.name()).collect::<Vec<_>>(),
             "samples": samples,
             "exhaustive": true,
-            "rule": "every stream of 1..2 requests (thorough: 3) over the alphabet of all opcodes 0x00-0x24 (hit/miss, success/error operands, loud and quiet, unimplemented, undefined) plus every stream with quit/quitq in the middle, each sent in one segment, byte-at-a-time, and in one segment followed at once by the client's FIN (thorough: every single cut of 2-request streams) over real loopback TCP; responses matched to requests by opaque in order and validated by the sequential specification; final store compared with the specification state; plus every stream [<a>] quit|quitq <b> sent on an established connection that the client resets at once (the server reads every byte, its writes and its shutdown fail): the store must end as before the stream or as after <a>",
+            "rule": "every stream of 1..2 requests (thorough: 3) over the alphabet of all opcodes 0x00-0x24 (hit/miss, success/error operands, loud and quiet, unimplemented, undefined) plus every stream with quit/quitq in the middle, each sent in one segment, byte-at-a-time, and in one segment followed at once by the client's FIN (thorough: every single cut of 2-request streams) over real loopback TCP; responses matched to requests by opaque in order and validated by the sequential specification; final store compared with the specification state; plus every stream [<a>] quit|quitq <b> sent on an established connection that the client resets at once (the server reads every byte, its writes and its shutdown fail): the store must end as before the stream or as after <a>; plus pipelines of 130 .. 70000 (thorough 140000) loud noops, and as many quiet sets followed by a get, each ending in quit, in one write",
         }),
         assumptions: vec!["tokio paused-clock quiescence; loopback delivery before the send syscall returns".into()],
         violations: found.into_values().collect(),
@@ -708,14 +796,18 @@ pub fn backpressure_gets(tier: Tier, opcodes: &[u8]) -> (u64, Vec<(String, Strin
                 let w = net::NetWorld::new(NetCfg { item_limit: 1 << 20, ..Default::default() })?;
                 let mut c = w.connect()?;
                 let value: Vec<u8> = (0..size).map(|i| (i % 251) as u8).collect();
-                c.step(&w, &Req::store(op::SET, b"big", &value, 0x0b16, 0, 0).opaque(1).bytes())?;
+                if let Err(e) = c.step(&w, &Req::store(op::SET, b"big", &value, 0x0b16, 0, 0).opaque(1).bytes()) {
+                    return Ok(Some(format!("the connection was lost while the item was being stored ({})", e)));
+                }
                 c.got.clear();
                 let mut reqs = vec![];
                 for i in 0..gets {
                     reqs.extend(Req::get(opcode, b"big").opaque(0x100 + i as u32).bytes());
                 }
                 reqs.extend(Req::bare(op::NOOP).opaque(0x999).bytes());
-                c.send(&w, &reqs)?;
+                if let Err(e) = c.send(&w, &reqs) {
+                    return Ok(Some(format!("the connection was lost while the pipelined gets were being sent ({})", e)));
+                }
                 // the server runs until it is blocked on the full socket; nothing is read meanwhile
                 w.settle();
                 w.settle();
@@ -797,7 +889,9 @@ fn late_reader() -> (u64, Vec<(String, String)>, Option<String>) {
                 let w = net::NetWorld::new(NetCfg { item_limit: 1 << 20, ..Default::default() })?;
                 let mut c = w.connect()?;
                 let value: Vec<u8> = (0..size).map(|i| (i % 241) as u8).collect();
-                c.step(&w, &Req::store(op::SET, b"big", &value, 7, 0, 0).opaque(1).bytes())?;
+                if let Err(e) = c.step(&w, &Req::store(op::SET, b"big", &value, 7, 0, 0).opaque(1).bytes()) {
+                    return Ok(Some(format!("the connection was lost while the item was being stored ({})", e)));
+                }
                 c.got.clear();
                 let mut reqs = vec![];
                 for i in 0..gets {
@@ -809,7 +903,9 @@ fn late_reader() -> (u64, Vec<(String, String)>, Option<String>) {
                 } else {
                     gets
                 };
-                c.send(&w, &reqs)?;
+                if let Err(e) = c.send(&w, &reqs) {
+                    return Ok(Some(format!("the connection was lost while the pipelined gets were being sent ({})", e)));
+                }
                 if ending == "fin" {
                     c.shutdown_write(&w);
                 }
